@@ -19,9 +19,20 @@ except Exception as _ex:  # the generator itself broke: same fallback as an unpa
     GEN_STATUS = {"RatioSmall.v": "unparsed generator-failed: %s" % str(_ex)[:200],
                   "RoundPrimGen.v": "unparsed generator-failed: %s" % str(_ex)[:200]}
 
+# round 4: coq/gen/RoundOpsGen.v - the BODIES of FBig::{trunc, split_at_point, split_at_point_internal, fract, ceil, floor, round}
+# (round_ops.rs) and FBig::to_int / Repr::to_int (convert.rs), proved equal to the entry-point models
+# (C10_entry_point_bodies_generated); the oracle evaluates them for the fidelity statistic of the float cases.
+try:
+    import translate_c10_r4
+    GEN_STATUS.update(translate_c10_r4.generate(core.REPO, os.path.join(core.COQ, "gen")))
+except Exception as _ex:
+    GEN_STATUS["RoundOpsGen.v"] = "unparsed generator-failed: %s" % str(_ex)[:200]
+
 GEN_TIED = {
+    "RoundOpsGen.v": ("float/src/round_ops.rs FBig::{trunc, split_at_point(_internal), fract, ceil, floor, round}, convert.rs FBig::to_int, Repr::to_int",
+                      "C10_entry_point_bodies_generated"),
     "RatioSmall.v": ("rational/src/round.rs impl Repr", "C10_rat_generated_bodies, C10_rat_generated_spec"),
-    "RoundPrimGen.v": ("float/src/round.rs Round::{round_fract, round_ratio}, repr.rs smaller_than_one, round_ops.rs FBig::round",
+    "RoundPrimGen.v": ("float/src/round.rs Round::{round_fract, round_ratio} incl. the repaired assertions (F04, F05), repr.rs smaller_than_one, round_ops.rs FBig::round",
                        "C10_round_fract_generated, C10_round_fract_assertion_generated, C10_round_ratio_generated, C10_small_tests_generated"),
 }
 
@@ -33,7 +44,7 @@ def extra_phase(tier, seed, exes, oracle):
         word = st.split(" ", 1)[0]
         hist["translator_c10:%s:%s" % (fname[:-2], word)] = 1
         src, thms = GEN_TIED.get(fname, ("?", "?"))
-        samples.append({"fragment": "coq/gen/%s (tools/translate_c10_r3.py from %s)" % (fname, src), "status": st,
+        samples.append({"fragment": "coq/gen/%s (tools/translate_c10_%s.py from %s)" % (fname, "r4" if fname == "RoundOpsGen.v" else "r3", src), "status": st,
                         "tied_by": thms if word == "ok" else "correspondence run only (source not parsed; previous copy marked STALE)"})
     return {"evaluations": 0, "hist": hist, "nontrivial": [], "samples": samples, "failures": []}
 
@@ -47,7 +58,7 @@ CASE_TIMEOUT = {"quick": 30, "thorough": 120}
 MODES = ["Zero", "Away", "Up", "Down", "HalfEven", "HalfAway"]
 BASES = [2, 2, 3, 8, 10, 10, 10, 16, 36]
 
-LEVEL_TEXT = ("Coq theorems for all inputs (81 pinned; every base B >= 2, every float, every digits_ub that never under-estimates): the as-is models "
+LEVEL_TEXT = ("Coq theorems for all inputs (95 pinned; every base B >= 2, every float, every digits_ub that never under-estimates): the as-is models "
               "of FBig::{trunc,floor,ceil,round,fract,split_at_point,to_int,with_precision}, Repr::to_int, split_at_point_internal / "
               "smaller_than_one return the neighbour of the exact value their definition names (spec_round under Zero/Down/Up/HalfAway/"
               "the type's mode), trunc + fract = x with |fract| < 1 and the sign of x, the Exact/NoOp/AddOne/SubOne flag is the true "
@@ -73,32 +84,56 @@ LEVEL_TEXT = ("Coq theorems for all inputs (81 pinned; every base B >= 2, every 
               "directed ones - refuted by witness; documented precondition |num/den| < 1); a release build of round_fract answers outside the "
               "precondition (witness); (5) to_int: e >= 0 returns s * B^e (>= B^e: the documented allocation is the size of the result), e < 0 "
               "never exceeds |s|; with one zero digit after the point the six roundings depend on the sign only (C10_int_spec_tiny: the "
-              "oracle's specification where B^(-e) cannot be formed). Every implementation answer is decided against the extracted specification.")
+              "oracle's specification where B^(-e) cannot be formed). "
+              "Round 4: (6) the debug assertion of round_fract formed B^precision before looking at the fraction, so FBig::to_int of a float far "
+              "below one did not return / ran out of memory / panicked in builds with debug assertions (F04, repaired in /repo 0cb53f5: bit "
+              "lengths first): the repaired assertion is the SAME condition for every input, any usize::MAX, any base >= 2 "
+              "(C10_assertion_repair_same_condition, C10_round_fract_debug_repaired; regenerated from the source), the power is formed only when "
+              "precision < bit_len(fract) and then has fewer than twice its bits, before the repair it had more than `precision` bits whatever the "
+              "fraction (C10_assertion_cost, witness C10_assertion_cost_refuted); FBig::to_int with it is the specification at EVERY exponent "
+              "(C10_to_int_any_exponent: no bound on the digit count; far below one half the primitive needs no power: "
+              "C10_round_fract_far_below_half); (7) round_ratio's assertion admitted |num| = |den| against its documentation (F05, repaired in "
+              "/repo 0c09fb1: is_lt): now the assertion IS the documented precondition and every answer is the specification's adjustment for "
+              "all six modes (C10_round_ratio_repaired), the behaviour changed at |num| = |den| only, and every shape of argument the workspace "
+              "passes (remainders, scaled remainders) satisfies it (C10_round_ratio_callers_pass); (8) the f32 pre-filter with 2^24 AND MORE digits: "
+              "`precision as f32` is rounded there, and the coarse tests stay sound because the two ADJUST products of log2_bounds_large leave slack "
+              "((1+u)^3 (1-4u) < 1-u, u = 2^-24): proved for Flocq's binary32 arithmetic, TypedReprRef::log2_bounds computed from ANY sound "
+              "double-word bounds, every digit count, fractions of fewer than 2^34 bits (C10_f32_filter_large_abstract, "
+              "C10_log2_bounds_large_slack, C10_f32_filter_all_digit_counts); (9) Round::Reverse (table regenerated by C11, cited): a directed mode "
+              "and its reverse return floor and ceiling of the exact value, a nearest mode is its own reverse (C10_reverse_mode_brackets). "
+              "Every implementation answer is decided against the extracted specification.")
 LEVEL_NOTE = ("Trusted: Coq kernel, translators (tools/translate.py: round_low_part bodies; tools/translate_c10_r3.py: rational round.rs bodies, "
               "round_fract / round_ratio bodies and assertions, smaller_than_one, FBig::round threshold - status in the evidence), extraction + FastZ.v, "
               "zarith, harness. IBig arithmetic below the float/rational layer is Z arithmetic (C01/C02/C09) and isize exponent arithmetic is Z "
               "arithmetic (one overflow found at isize::MIN and repaired, F03); digits_ub enters only through the contract 'never under-estimates' "
-              "(C12 log2_bounds). The f32 pre-filter inside round_fract is now covered by theorem for fewer than 2^24 fraction digits (C03's "
-              "round_fract_flocq32 cited; its hypotheses are the soundness of UBig/Word::log2_bounds = C12); with 2^24 or more digits after the "
-              "radix point it is only compared (corpus: 2^24+1 digits in base 2 and 10). Still only compared: the precision attached to results "
-              "beyond legality (proved legal, value of the usize not pinned), behaviour at |num| = |den| of the "
-              "directed modes (as-is model only: outside the documented precondition). Debug builds: round_fract's assertion raises the base to the "
-              "digit count, so FBig::to_int of exponents below about -10^7 is not run (release builds decide by the f32 filter); observation, not a "
-              "finding. Three defects were repaired in /repo (findings/C10.json F01 = DESIGN 5.1 #20, F02, F03 = isize::MIN negation); F01/F02 are "
-              "refuted in Coq on the pinned model.")
-TECHNIQUE = ("Coq proof (as-is models from the finiteness assertion on = spec_round; f32 filter by C03's Flocq theorem; rounding tables, rational "
-             "bodies, primitive bodies and assertions regenerated from source) + extracted-spec correspondence run")
+              "(C12 log2_bounds). The f32 pre-filter inside round_fract is covered by theorem for every digit count (below 2^24: C03's "
+              "round_fract_flocq32 cited; from 2^24 on: C10_f32_filter_all_digit_counts, for fractions of fewer than 2^34 bits = 2 GiB, with "
+              "64-bit words); its hypotheses are the soundness of the double-word and Word log2 bounds (C12/C14) - the combination with the entry "
+              "points is stated per primitive call, the entry-point theorems themselves still take an implementation rf that agrees below K digits. "
+              "The run reaches 2^24 .. 2^27 binary digits next to the tie in every tier (op round_fract_half) and bases 3/10/16/36 at 2^24 digits in "
+              "the thorough tier. Still only compared: the precision attached to results beyond legality (proved legal, value of the usize not "
+              "pinned); fractions of 2^34 bits and more (second-order rounding terms exceed the 0.001 margin of the literals: neither proved nor "
+              "refuted, not reachable in the sandbox). Five defects were repaired in /repo (findings/C10.json F01 = DESIGN 5.1 #20, F02, F03 = "
+              "isize::MIN negation, F04 = cost of the debug assertion, F05 = round_ratio's assertion); F01/F02 are refuted in Coq on the pinned model, "
+              "F04 by its cost model, F05 by C10_round_ratio_boundary_directed_refuted on the model before the repair (round_ratio_pub, kept). "
+              "The two statements that tie the regenerated assertion conditions to the models were restated for the repaired source "
+              "(C10_round_fract_assertion_generated now takes 2 <= B and usize::MAX; C10_round_ratio_generated names round_ratio_pre4).")
+TECHNIQUE = ("Coq proof (as-is models from the finiteness assertion on = spec_round; f32 filter by C03's Flocq theorem below 2^24 digits and by "
+             "the slack of log2_bounds_large beyond; rounding tables, rational bodies, primitive bodies and (repaired) assertions regenerated from "
+             "source) + extracted-spec correspondence run")
 RULE = ("cases = FBig op {trunc,floor,ceil,round,fract,split,to_int,repr_to_int,with_precision} x base {2,3,8,10,16,36} x six modes x "
         "precision {0 (unlimited),1,2,3,4,5,7,10,17,40} x significand digits {1,2,p-1,p} x position of the radix point "
         "{integer, inside the digits at every offset, exactly at the top digit, 1,2,3,5,50,700 leading zeros} x digit patterns "
         "{exact half, half +-1 unit, all B-1 (carry), 1, 10..0, even/odd integer part, random} x sign; infinities at every entry point; "
         "exponents 5000..65537 (10^6 thorough) both ways for to_int, radix point 4001/6000 digits inside a long significand; "
-        "exponents -10^7, -2^40, -(2^63-1), isize::MIN for every entry point that does not reach round_fract's debug assertion; "
+        "exponents -10^7, -2^40, -(2^63-1), isize::MIN for every entry point (to_int included since F04); "
         "with_precision twice (second cut landing on a tie / carry of the first), with_rounding + with_precision (6 x 6 modes), "
         "with_base_and_precision to the same base; rationals {RBig, Relaxed} x {integers, ties n/2, |x|<1, planted common factors, "
         "multi-word}; the two primitives exhaustively for bases 2,3,10 (all fractions of up to 4/3/2 digits, integers -2..2, all modes; "
         "all ratios with |den| <= 8, both signs of den), randomly for large operands, and on arbitrary input (fraction = B^k, B^k +- 1, "
-        "2 B^k, precision 0; den = 0, |num| = |den|, |num| > |den|). non-trivial = the value has a fractional part (a rounding decision "
+        "2 B^k, precision 0; den = 0, |num| = |den| (must be refused since F05), |num| > |den|; digit counts 2^24+1 .. usize::MAX with a short "
+        "fraction, the size test of the repaired assertion at bit_len = k * floor(log2 B) -1/0/+1); to_int at exponents -10^7 .. isize::MIN (F04); "
+        "fractions B^k / 2 + delta with k = 2^24 .. 2^27 digits (base 2; bases 3, 10, 16, 36 in the thorough tier). non-trivial = the value has a fractional part (a rounding decision "
         "was made); counted by the oracle over distinct case texts.")
 EXPLANATION = ("Each answer is compared with the Coq specification: int_spec (spec_round of s*B^e under Zero/Down/Up/HalfAway or the "
                "type's mode; int_tiny where the power cannot be formed), fract_sig_spec (x - trunc x), to_int_spec / with_precision_spec (value "
@@ -106,19 +141,20 @@ EXPLANATION = ("Each answer is compared with the Coq specification: int_spec (sp
                "documented panic; outside the primitives' preconditions the assertion must fire; a directed-mode with_precision chain must equal "
                "the single rounding. Result precisions must keep the value legal (digits <= precision or unlimited). Model fidelity is measured "
                "against the as-is entry points (*_full, under both admissible digits_ub instances) and, for the rationals and the primitives on "
-               "arbitrary input, against the bodies regenerated from the Rust sources.")
+               "arbitrary input, against the bodies and assertion conditions regenerated from the Rust sources (to_int against to_int_full4 with the "
+               "sizes-first primitive round_fract_sz, which forms no power far below one half). At |num| = |den| round_ratio must refuse (F05).")
 TRUSTED_BASE = [
-    "Coq 8.16.1 kernel; Flocq (binary32 rounding) through C03's theorem round_fract_flocq32",
-    "tools/translate.py renders the six round_low_part bodies of float/src/round.rs faithfully; tools/translate_c10_r3.py renders the bodies of rational/src/round.rs impl Repr, Round::round_fract / round_ratio and their assertion conditions, Repr::smaller_than_one and FBig::round's zero test (IBig / and % as Z.quot / Z.rem, a closure called once as its block, the two f32 tests as abstract predicates) - status in the evidence",
+    "Coq 8.16.1 kernel; Flocq (binary32 rounding, relative_error_N_FLT) through C03's theorem round_fract_flocq32 and Float/FilterLargeProof.v",
+    "tools/translate.py renders the six round_low_part bodies of float/src/round.rs faithfully; tools/translate_c10_r3.py renders the bodies of rational/src/round.rs impl Repr, Round::round_fract / round_ratio and their assertion conditions, Repr::smaller_than_one and FBig::round's zero test (IBig / and % as Z.quot / Z.rem, a closure called once as its block, the two f32 tests as abstract predicates, IBig/Word::bit_len and usize::saturating_mul as fixed Gallina text) - status in the evidence",
     "extraction: ExtrOcamlBasic + ExtrOcamlZBigInt + coq/extract/FastZ.v directives; zarith 1.12; oracle/driver_c10.ml",
-    "harness/src/bin/c10.rs and hlib (values moved through raw words, Repr::new, Context::new, FBig::from_repr, RBig/Relaxed::from_parts)",
+    "harness/src/bin/c10.rs and hlib (values moved through raw words, Repr::new, Context::new, FBig::from_repr, RBig/Relaxed::from_parts; round_fract_half builds B^k / 2 + delta with UBig::pow and a shift)",
     "IBig arithmetic below the float and rational layers behaves as Z (C01, C02, C09); Repr::digits_ub never under-estimates and UBig/Word::log2_bounds are sound (C12)",
 ]
 ASSUMPTIONS = [
     "floats are legal: digits <= context precision, or the precision is 0 (unlimited); infinities are covered as the documented panic class",
     "primitives inside their documented precondition (|fract| < B^digits, |num| < |den|, den != 0) meet the specification; outside it only the assertion / the as-is model is checked",
-    "fewer than 2^24 digits after the radix point for the theorem about the f32 pre-filter (beyond: compared on corpus cases only)",
-    "FBig::to_int is run for exponents within about +-10^6 (memory of the exact integer; debug assertion of round_fract); the other entry points down to isize::MIN",
+    "fractions of fewer than 2^34 bits and 64-bit words for the theorem about the f32 pre-filter from 2^24 digits on (below 2^24 digits: any size)",
+    "FBig::to_int with a non-negative exponent is run up to about 10^6 (memory of the exact integer); every entry point down to isize::MIN",
 ]
 
 
@@ -285,7 +321,8 @@ def gen_tiny(rng, tier):
     if rng.chance(1, 2):
         s = -s
     e = rng.choice(["-%x" % (10 ** 7), "-%x" % (2 ** 40 + 1), "-%x" % (2 ** 63 - 1), "-%x" % (2 ** 63 - 2 - d), "min", "min", "min"])
-    op = rng.choice(["trunc", "floor", "ceil", "round", "fract", "fract", "split", "repr_to_int"])
+    # to_int too since F04 (/repo 0cb53f5): the debug assertion of round_fract no longer raises the base to the digit count
+    op = rng.choice(["trunc", "floor", "ceil", "round", "fract", "fract", "split", "repr_to_int", "to_int", "to_int", "to_int"])
     return "%s %x %s %x %s %s" % (op, b, rng.choice(MODES), p, hx(s), e)
 
 
@@ -335,7 +372,23 @@ def gen_prim_any(rng, tier):
     """the two primitives on arbitrary input: inside / at the edge of / outside their preconditions"""
     mode = rng.choice(MODES)
     i = rng.choice([0, 0, 1, -1, 2, -2, 3, -3, 2 ** 64, -(2 ** 64), rng.bits(70), -rng.bits(70)])
-    if rng.chance(1, 2):
+    t = rng.below(10)
+    if t < 2:
+        # the repaired debug assertion of round_fract (F04): digit counts up to usize::MAX with a short fraction (sizes
+        # decide, no power), and the boundary of the size test blen(f) <= k * floor(log2 B) at -1/0/+1 (power formed)
+        b = rng.choice(BASES)
+        kb = b.bit_length() - 1
+        if rng.chance(1, 2):
+            k = rng.choice([2 ** 24 + 1, 2 ** 32, 2 ** 40 + 7, 2 ** 63 - 1, 2 ** 63, 2 ** 64 - 1, (2 ** 64 - 1) // kb, min(2 ** 64 - 1, (2 ** 64 - 1) // kb + 1)])
+            f = rng.choice([1, 2, b - 1, b, rng.bits(64), rng.bits(200), 2 ** 127, 2 ** 128 + 1])
+        else:
+            k = rng.choice([1, 2, 3, 5, 20, 64, 200])
+            f = rng.choice([2 ** (k * kb) - 1, 2 ** (k * kb), 2 ** (k * kb) + 1, 2 ** (k * kb - 1), b ** k - 1, b ** k, b ** k + 1,
+                            b ** k // 2, b ** k // 2 + 1, 2 ** (k * kb + 1) - 1])
+        if rng.chance(1, 2):
+            f = -f
+        return "round_fract_any %x %s %s %s %x" % (b, mode, hx(i), hx(f), k)
+    if t < 6:
         b = rng.choice(BASES)
         k = rng.choice([0, 0, 0, 1, 1, 2, 3, 5, 20, 64])
         full = b ** k
@@ -351,6 +404,23 @@ def gen_prim_any(rng, tier):
         d = -d
     return "round_ratio_any %s %s %s %s" % (mode, hx(i), hx(n), hx(d))
 
+
+
+def gen_half_large(rng, tier):
+    """fractions next to B^k / 2 with k >= 2^24 digits (built by the harness): `precision as f32` is rounded there and the
+    f32 pre-filter of round_fract relies on the slack of log2_bounds_large (C10_f32_filter_all_digit_counts); base 2 is
+    cheap (a shift), the other bases cost seconds per case and come in the thorough tier only"""
+    mode = rng.choice(MODES)
+    i = rng.choice([0, 1, -1, 2, -2, 7])
+    delta = rng.choice([0, 0, 1, -1, 2, -2, 1 << 64, -(1 << 64), rng.bits(100), -rng.bits(100)])
+    sg = rng.choice("+-")
+    if tier == "thorough" and rng.chance(1, 3):
+        b = rng.choice([3, 10, 16, 36])
+        k = rng.choice([2 ** 24, 2 ** 24 + 1, 2 ** 24 + 3])
+    else:
+        b = 2
+        k = rng.choice([2 ** 24 - 1, 2 ** 24, 2 ** 24 + 1, 2 ** 24 + 3, 2 ** 25 + 1, 2 ** 25 + 2, 2 ** 26 + 5, 2 ** 27 + 11, 33554435, 50331653])
+    return "round_fract_half %x %s %s %x %s %s" % (b, mode, hx(i), k, hx(delta), sg)
 
 
 def precisions(rng, tier):
@@ -463,7 +533,7 @@ def valid(text):
     if op == "round_ratio":
         n, d = core.unhx(t[3]), core.unhx(t[4])
         return d != 0 and abs(n) < abs(d)
-    if op in ("round_fract_any", "round_ratio_any"):
+    if op in ("round_fract_any", "round_ratio_any", "round_fract_half"):
         return True
     if op[0] in "rx" and op not in ("round", "repr_to_int"):
         return core.unhx(t[2]) > 0
@@ -502,6 +572,8 @@ def gen_cases(rng, tier, n):
             c = gen_inf(rng, tier)
         elif k < 99:
             c = gen_tiny(rng, tier)
+        elif rng.chance(1, 12 if tier == "quick" else 40):
+            c = gen_half_large(rng, tier)
         else:
             c = gen_to_int_huge(rng, tier)
         if c in seen or not valid(c):
